@@ -264,6 +264,19 @@ func (f *fields) array() []value {
 	return f.a
 }
 
+// sortedKeys returns the names of the dictionary entries in sorted order.
+// Operations that can fail at more than one entry visit the entries in this
+// order, so that the error they report does not depend on the iteration
+// order of the map.
+func (f *fields) sortedKeys() []string {
+	keys := make([]string, 0, len(f.d))
+	for k := range f.d {
+		keys = append(keys, k)
+	}
+	sort.Strings(keys)
+	return keys
+}
+
 func (f *fields) del(name string) bool {
 	_, exists := f.d[name]
 	if exists {
